@@ -365,9 +365,11 @@ func ParseNameAddrPVal(h HdrT, buf []byte, offs int, pfrom *PFromBody) (int, Err
 				if pfrom.state == fbParamName {
 					pfrom.state = fbNewParam
 					pfrom.pend = i
+					setFromParamVal(buf, pfrom) // param. without value
 				} else if pfrom.state == fbPossibleParamName {
 					pfrom.state = fbNewPossibleParam
 					pfrom.pend = i
+					setFromParamVal(buf, pfrom) // param. without value
 				}
 			default:
 				if pfrom.state == fbNewParam {
@@ -398,6 +400,7 @@ func ParseNameAddrPVal(h HdrT, buf []byte, offs int, pfrom *PFromBody) (int, Err
 				} else {
 					pfrom.state = fbNewPossibleParam
 				}
+				setFromParamVal(buf, pfrom) // param. without value
 			case ',':
 				if multipleValsOk(h) {
 					// e.g.: <sip:a>;lr , <sip:b>
@@ -569,6 +572,12 @@ endOfHdr:
 		fbPossibleParamNameEnd, fbParamName, fbPossibleParamName:
 		// uri or possible uri already found, make sure the params end is set
 		//pfrom.Params.Set(int(pfrom.Params.Offs), i)
+		if pfrom.state == fbParamName || pfrom.state == fbPossibleParamName {
+			pfrom.pend = i
+		}
+		if pfrom.pstart < pfrom.pend {
+			setFromParamVal(buf, pfrom) // last param. has no value (e.g. ;lr)
+		}
 		if pfrom.Params.Offs != 0 {
 			pfrom.Params.Extend(i)
 		}
